@@ -256,6 +256,25 @@ def run(ctx: Ctx) -> int:
             ok = bool(good_h)
             ctx.oblige("C09.b", ok, good_h[0] if good_h else c, f"an exiting action inside the argument loop first discards a pending `{a}` request" if ok else f"an action that exits inside the argument loop (--help, --version) leaves a pending `{a}` request on the parser: after parse_args(['--print_config', '--help']) the next successful parse prints the configuration and exits", fn=pka, construct=f"discard {a} on exit from the argument loop")
 
+        # ... and on EVERY way out of the argument loop, not only SystemExit: a user type function may raise anything
+        # (type=os.listdir -> FileNotFoundError; an omegaconf --cfg file -> InterpolationKeyError); the handler that
+        # discards and re-raises must catch every exception
+        for c in inner_calls:
+            hs_all = [h for t, part in enclosing_trys(c) if part == "body" for h in t.handlers if any(call_leaf(x) in discarders for x in calls_in(h)) and any(isinstance(r, ast.Raise) and r.exc is None for r in ast.walk(h))]
+            wide = [h for h in hs_all if h.type is None or set(handler_names(h)) & {"BaseException"}]
+            ok = bool(wide)
+            ctx.oblige("C09.b", ok, wide[0] if wide else (hs_all[0] if hs_all else c), f"whatever exception ends the argument loop, a pending `{a}` request is discarded first" if ok else f"the handler that discards a pending `{a}` request around the argument loop catches only {sorted(set(n for h in hs_all for n in handler_names(h)))}: p.add_argument('--dir', type=os.listdir); p.parse_args(['--print_config', '--dir=/nonexistent']) raises FileNotFoundError with the request still pending, and the next p.parse_args(['--a=2']) prints the configuration and exits", fn=pka, construct=f"discard {a} on any exception from the argument loop")
+        # the request is taken off the parser BEFORE it is served: a dump that fails (RepresenterError for a value yaml cannot
+        # represent) must not leave a half-consumed request behind ({'skip_none': ...} without 'key' -> the next parse
+        # fails with KeyError 'key')
+        pcr = ctx.func("_actions:_ActionPrintConfig.print_config_if_requested")
+        gpcr = ctx.cfg(pcr)
+        dumps_ = [c for c in calls_in(pcr) if call_leaf(c) == "dump"]
+        dels_ = [c for c in calls_in(pcr) if (call_leaf(c) == "delattr" and len(c.args) == 2 and const_str(c.args[1]) == a)] + [d_ for d_ in walk_local(pcr) if isinstance(d_, ast.Delete) and any(isinstance(t, ast.Attribute) and t.attr == a for t in d_.targets)]
+        ctx.need(dumps_, "print_config_if_requested: subparser.dump(...)")
+        ok = bool(dels_) and gpcr.dominates(gpcr.cn(dels_), gpcr.cn(dumps_))
+        ctx.oblige("C09.b", ok, dels_[0] if dels_ else pcr, f"the `{a}` request is removed from the parser before the dump that serves it can fail" if ok else f"the `{a}` attribute is removed only after the dump: when the dump raises (a default that yaml cannot represent) the request stays on the parser without its 'key' / 'subparser' entries, and the next parse_args fails with ArgumentError: 'key'", fn=pcr, construct=f"{a} detached before it is served")
+
         # a parse method called, while a parse is running, on the parser THAT WAS HANDED IN (the one that may hold the
         # pending request) must not serve the request: such calls run under skip_print_config()
         # (F51: --print_config before --cfg printed the file's content alone from inside apply_config)
